@@ -29,13 +29,10 @@ Theorem C10_completion_frees_slot : forall tid st sl cx c, In c (ctx_reset tid s
 Proof. exact ctx_reset_frees. Qed.
 Print Assumptions C10_completion_frees_slot.
 
-(* NOT a theorem of the model: "a strategy is never locked out of a runner whose orders have all completed".  A control refusing a
-   cancel/update/replace marks the live order VIOLATION, which is complete but never completes its trade (F-C02-1): every order of the
-   trade is complete, the trade is Live and the slot stays charged. *)
-Theorem C10_locked_out_refuted :
-  exists es, let s := lrun (lstate0 COMPLETE_STATUS) es in
-    forallb lo_complete (ls_orders s) = true /\ map lt_status (ls_trades s) = [TLive] /\ map (fun c => length (rc_live c)) (ls_ctx s) = [1%nat].
-Proof. exists [LPlace 0 0 0 101 500 200 false; LResponsePlace [0] [PSuccess 0 (Some 7001) 0]; LRefused 0]. vm_compute. repeat split. Qed.
+(* a control refusing a cancel/update/replace no longer touches the order (repair of F-C02-1, fix: commit 2b78b6a): on the pinned tree it
+   marked the live order VIOLATION, which is complete but never completes its trade - every order complete, trade Live, slot charged. *)
+Theorem C10_refusal_changes_nothing : forall s n, lstep s (LRefused n) = s.
+Proof. reflexivity. Qed.
 
 (* non-vacuity: two orders in one trade; the trade completes, and the slot is freed, exactly when the second one completes *)
 Example C10_example :
